@@ -828,7 +828,17 @@ func ruleRequestReplyAtomic(w *core.World, r *core.Report) {
 	writes := func(g *ssa.Function) bool { return false }
 	_ = writes
 	// the functions of the connection that touch the wire, and whether they take the guard themselves
-	wire := map[*ssa.Function]string{}
+	wire := map[*ssa.Function]map[string]bool{}
+	mark := func(g *ssa.Function, k string) bool {
+		if wire[g] == nil {
+			wire[g] = map[string]bool{}
+		}
+		if wire[g][k] {
+			return false
+		}
+		wire[g][k] = true
+		return true
+	}
 	locks := map[*ssa.Function]bool{}
 	fs := w.FuncsIn("pkg/redis/client/conn")
 	for _, g := range fs {
@@ -841,9 +851,9 @@ func ruleRequestReplyAtomic(w *core.World, r *core.Report) {
 			}
 			switch {
 			case strings.Contains(s.Name, "proto.Writer).") || s.Name == "(*bufio.Writer).Flush":
-				wire[g] = "send"
+				mark(g, "send")
 			case strings.Contains(s.Name, "proto.Reader).Read"):
-				wire[g] = "receive"
+				mark(g, "receive")
 			case s.Name == "(*sync.Mutex).Lock" || s.Name == "(*sync.RWMutex).Lock":
 				if fa, ok := s.Common().Args[0].(*ssa.FieldAddr); ok && core.FieldName(fa) == "guard" {
 					locks[g] = true
@@ -858,9 +868,10 @@ func ruleRequestReplyAtomic(w *core.World, r *core.Report) {
 				if s.Callee == nil || s.Instr.Parent() != g {
 					continue
 				}
-				if k, ok := wire[s.Callee]; ok && wire[g] == "" {
-					wire[g] = k
-					changed = true
+				for k := range wire[s.Callee] {
+					if mark(g, k) {
+						changed = true
+					}
 				}
 				if locks[s.Callee] && !locks[g] && strings.HasPrefix(core.FuncName(g), "(*pkg/redis/client/conn.RedisConn).") {
 					// reached only for reporting: a caller of a locking function
@@ -875,14 +886,22 @@ func ruleRequestReplyAtomic(w *core.World, r *core.Report) {
 		if s.Callee == nil || s.Instr.Parent() != f {
 			continue
 		}
-		kind, isWire := wire[s.Callee]
-		if !isWire {
+		kinds, isWire := wire[s.Callee]
+		if !isWire || len(kinds) == 0 {
 			continue
 		}
-		if kind == "send" {
+		kind := ""
+		if kinds["send"] {
 			sends++
-		} else {
+			kind = "send"
+		}
+		if kinds["receive"] {
 			recvs++
+			if kind != "" {
+				kind += " and receive"
+			} else {
+				kind = "receive"
+			}
 		}
 		held := ls[s.Instr.(ssa.Instruction)]["p:#0.guard"].Mode >= core.LockW
 		if !held {
@@ -912,6 +931,38 @@ func ruleOneLeaseStore(w *core.World, r *core.Report) {
 	}
 	cfg := f.Params[0]
 	n := 0
+	home := f
+	// the constructor may be picked as a function value by a helper (a dialer per kind of deployment) and called
+	// with the configuration: the stand-alone dialer is then judged in NewRedis' place
+	if len(core.SitesNamed(f, false, "pkg/redis/client/conn.NewRedisConn")) == 0 {
+		for _, in := range core.OwnInstrs(f) {
+			c, ok := in.(*ssa.Call)
+			if !ok || c.Call.IsInvoke() || c.Call.StaticCallee() != nil || len(c.Call.Args) != 1 {
+				continue
+			}
+			if !paramOrItsSpill(c.Call.Args[0], cfg) {
+				continue
+			}
+			sel, ok := c.Call.Value.(*ssa.Call)
+			if !ok || sel.Call.StaticCallee() == nil {
+				continue
+			}
+			for _, in2 := range core.OwnInstrs(sel.Call.StaticCallee()) {
+				ret, isRet := in2.(*ssa.Return)
+				if !isRet || len(ret.Results) != 1 {
+					continue
+				}
+				v := ret.Results[0]
+				if ct, isCt := v.(*ssa.ChangeType); isCt {
+					v = ct.X
+				}
+				if g, isFn := v.(*ssa.Function); isFn && len(g.Params) == 1 && len(core.SitesNamed(g, false, "pkg/redis/client/conn.NewRedisConn")) > 0 && failureReturned(f, core.ResolveCall(c)) {
+					home, cfg = g, g.Params[0]
+				}
+			}
+		}
+	}
+	f = home
 	for _, s := range core.SitesNamed(f, false, "pkg/redis/client/conn.NewRedisConn") {
 		if s.Instr.Parent() != f {
 			continue
@@ -949,4 +1000,37 @@ func ruleOneLeaseStore(w *core.World, r *core.Report) {
 	if n == 0 {
 		r.Fail("client.NewRedis/standalone-as-configured", f.Pos(), "no stand-alone connection is made")
 	}
+}
+
+// paramOrItsSpill: v is the parameter, or a load of the local copy nothing but the parameter is stored into and
+// no field of which is written.
+func paramOrItsSpill(v ssa.Value, par *ssa.Parameter) bool {
+	v = core.Unwrap(v)
+	if v == ssa.Value(par) {
+		return true
+	}
+	ld, ok := v.(*ssa.UnOp)
+	if !ok || ld.Op != token.MUL {
+		return false
+	}
+	al, ok := ld.X.(*ssa.Alloc)
+	if !ok {
+		return false
+	}
+	sts := core.CellStores(al)
+	if len(sts) != 1 || sts[0].Val != ssa.Value(par) {
+		return false
+	}
+	if refs := al.Referrers(); refs != nil {
+		for _, ref := range *refs {
+			if fa, isFa := ref.(*ssa.FieldAddr); isFa {
+				for _, r2 := range *fa.Referrers() {
+					if st, isSt := r2.(*ssa.Store); isSt && st.Addr == ssa.Value(fa) {
+						return false
+					}
+				}
+			}
+		}
+	}
+	return true
 }
